@@ -146,15 +146,36 @@ def run(seed, n):
         counter = [0]
         top = {'k': 'Compose', 'p': rng.choice(PS + [1, 1]), 'kids': [gen_tree(rng, 3, counter) for _ in range(rng.randint(1, 3))]}
         pipe = build(top)
+        # half of the pipelines carry annotation parameters; the per-transform check (check_each_transform on or off) is
+        # then recorded as 0 in the trace, each time Compose runs it
+        topmode = rng.choice([None, None, True, False])
+        extra = {}
+        if topmode is not None:
+            if rng.random() < 0.5:
+                pipe = A.Compose(pipe.transforms, p=float(top['p']),
+                                 keypoint_params=A.KeypointParams('xyz', check_each_transform=topmode))
+                extra = {'keypoints': [(1.0, 1.0, 1.0)]}
+            else:
+                pipe = A.Compose(pipe.transforms, p=float(top['p']),
+                                 bbox_params=A.BboxParams('pascal_voc_3d', check_each_transform=topmode))
+                extra = {'bboxes': [(0.0, 0.0, 0.0, 2.0, 2.0, 2.0, 'a')]}
         del TRACE[:]
         random.seed(rng.randint(0, 1 << 30))
         force = rng.random() < 0.15
+        o_check = A.Compose._check_data_post_transform
+
+        def rec_check(self, data):
+            TRACE.append(0)
+            return o_check(self, data)
+        A.Compose._check_data_post_transform = rec_check
         with Recorder() as rec:
             try:
-                pipe(image=img, force_apply=force)
+                pipe(image=img, force_apply=force, **extra)
                 err = None
             except Exception as e:  # noqa
                 err = type(e).__name__
+            finally:
+                A.Compose._check_data_post_transform = o_check
         trace = list(TRACE)
         ev = rec.events
         if err is not None or any(k == 'I' for k, _ in ev):
@@ -174,11 +195,12 @@ def run(seed, n):
             if 'p' not in kw or kw['p'] is None:
                 wcases.append('false')
         draws = '[' + '; '.join(('DU %s' % q(v)) if k == 'U' else ('DC %s' % nat_list(v)) for k, v in ev) + ']'
-        coq = '(check_run %s %s %s %s)%s' % (coq_node(top), 'true' if force else 'false', draws, nat_list(trace),
-                                             ''.join(' && (%s)' % w for w in wcases))
+        head = 'check_run' if topmode is None else 'check_run_top %s' % ('true' if topmode else 'false')
+        coq = '(%s %s %s %s %s)%s' % (head, coq_node(top), 'true' if force else 'false', draws, nat_list(trace),
+                                      ''.join(' && (%s)' % w for w in wcases))
         cases.append({'tree': top, 'force': force, 'events': [(k, (float(v) if k == 'U' else v)) for k, v in ev],
                       'trace': trace, 'coq': coq})
-        key = 'fired=%d' % len(trace)
+        key = 'fired=%d' % len([x for x in trace if x]) + ('' if topmode is None else ',checks=%s' % ('on' if topmode else 'off'))
         kinds[key] = kinds.get(key, 0) + 1
     # evaluate the model
     cdir = os.path.join(VERIF, 'coq', 'cases')
